@@ -104,7 +104,7 @@ class Engine:
 
     def int(self, name, lo=None, hi=None):
         if self.concrete is not None:
-            v = int(self.concrete[name])
+            v = int(self.concrete.get(name, lo if lo is not None else 0))
             if (lo is not None and v < lo) or (hi is not None and v > hi):
                 raise Abort(f"concrete input {name}={v} outside its declared range")
             return v
@@ -119,7 +119,7 @@ class Engine:
 
     def bool(self, name):
         if self.concrete is not None:
-            return bool(self.concrete[name])
+            return bool(self.concrete.get(name, False))
         c = z3.Bool(name)
         self._declare(name, c, [])
         return SymBool(c)
@@ -152,7 +152,7 @@ class Engine:
     def choice(self, name, n):
         """A finite selector in range(n): a solver variable the engine forks over."""
         if self.concrete is not None:
-            return int(self.concrete[name])
+            return int(self.concrete.get(name, 0))
         v = self.int(name, 0, n - 1)
         return self.concretize(v.e, limit=n)
 
